@@ -296,13 +296,14 @@ func (i *interpreter) findMethod0(t types.Type, name string) *ssa.Function {
 	return nil
 }
 
-func isEmptyValue(t types.Type, v value) bool {
+func (i *interpreter) isEmptyValue(t types.Type, v value) bool {
 	switch u := t.Underlying().(type) {
 	case *types.Basic:
-		if containsSym(v) {
-			unsupportedf("omitempty on a symbolic value")
-		}
 		z := isZeroVal(t, v)
+		if containsSym(v) {
+			// whether the member is written depends on the value: both cases are explored
+			return i.decide(z, "omitempty")
+		}
 		return z.IsConst && z.CBits == 1
 	case *types.Pointer, *types.Interface:
 		z := isZeroVal(t, v)
@@ -394,7 +395,7 @@ func (i *interpreter) marshalValue(fr *frame, t types.Type, v value, addr *value
 			if !ok {
 				continue // nil embedded pointer
 			}
-			if jf.omitEmpty && isEmptyValue(ft, fv) {
+			if jf.omitEmpty && i.isEmptyValue(ft, fv) {
 				continue
 			}
 			n.keys = append(n.keys, jf.name)
